@@ -26,6 +26,9 @@ type scenario struct {
 	desc            string
 	seed            uint64
 	length, spacing int
+	// lastBack > 0: Chain.LastBlock() stays this many blocks behind sc.tip (headers run ahead of the connected chain, the
+	// client's normal download state): every generated block then has a parent other than LastBlock
+	lastBack int
 	// byHash: the reference's own view of "which blocks exist", keyed by the WHOLE hash (independent of gocoin's
 	// 8-byte BlockIndex key)
 	byHash map[[32]byte]*chain.BlockTreeNode
@@ -60,6 +63,10 @@ func indexSnapshot(ch *chain.Chain) map[[btc.Uint256IdxLen]byte]string {
 }
 
 func newScenario(seed uint64, net netKind, length, spacing int) *scenario {
+	return newScenarioLB(seed, net, length, spacing, 0)
+}
+
+func newScenarioLB(seed uint64, net netKind, length, spacing, lastBack int) *scenario {
 	g := vlib.NewRng(seed)
 	sc := &scenario{net: net, t: newTree(), ch: newChain(net, easyBits), seed: seed, length: length, spacing: spacing, byHash: map[[32]byte]*chain.BlockTreeNode{}}
 	sc.desc = fmt.Sprintf("%s len=%d spacing=%d", net.name, length, spacing)
@@ -84,8 +91,16 @@ func newScenario(seed uint64, net netKind, length, spacing int) *scenario {
 		sc.register(tip)
 	}
 	sc.tip = tip
-	sc.ch.SetLast(tip)
-	o.MustAsk(fmt.Sprintf("last %d", sc.t.idx[tip]))
+	last := tip
+	for i := 0; i < lastBack && last.Parent != nil; i++ {
+		last = last.Parent
+		sc.lastBack = i + 1
+	}
+	if sc.lastBack > 0 {
+		sc.desc += fmt.Sprintf(" last-behind=%d", sc.lastBack)
+	}
+	sc.ch.SetLast(last)
+	o.MustAsk(fmt.Sprintf("last %d", sc.t.idx[last]))
 	return sc
 }
 
@@ -243,26 +258,42 @@ func pickH(g *vlib.Rng, h uint32, allowOff bool) uint32 {
 	return uint32(v)
 }
 
+// sideMuts: mutations that are also drawn on a parent other than sc.tip (mutation name + "@side")
+var sideMuts = map[string]bool{"time-mtp": true, "time-mtp+1": true, "time-mtp-1": true, "version": true, "lock-height": true, "lock-height-1": true,
+	"lock-time": true, "lock-time-1": true, "bip34-wrong-height": true, "bip34-missing": true, "bits-off": true, "commit-wrong": true, "commit-missing": true,
+	"cb-len-1": true, "cb-len-101": true, "merkle-wrong": true, "dup-tail": true}
+
 var blockMuts = []string{"none", "none", "none", "none", "none", "none",
 	"version", "version", "version", "time-mtp", "time-mtp+1", "time-mtp-1", "time-now+7200", "time-now+7201", "time-now+7500", "time-now+7501",
 	"bits-off", "bits-neg", "bits-zero", "bits-overflow", "bits-noncanon", "high-hash", "parent-unknown", "duplicate", "genesis-dup",
 	"parent-prefix-only", "parent-prefix-only", "parent-suffix-only", "hash-key-collision",
 	"fork-side", "cb-len-1", "cb-len-2", "cb-len-100", "cb-len-101", "bip34-wrong-height", "bip34-nonminimal", "bip34-missing",
 	"no-coinbase", "cb-second", "cb-not-first", "empty-block", "truncated", "trailing", "lock-height", "lock-height-1", "lock-time", "lock-time-1",
-	"lock-cb", "dup-tail", "dup-subtree", "merkle-wrong", "commit-wrong", "commit-missing", "commit-superfluous", "commit-two-last-right", "commit-two-first-right",
+	"lock-cb", "dup-tail", "dup-subtree", "merkle-wrong", "commit-wrong", "commit-missing", "commit-superfluous", "commit-two-last-right", "commit-two-first-right", "commit-37", "commit-37-after",
 	"nonce-31", "nonce-33", "nonce-2items", "nonce-absent", "unexpected-witness", "null-prevout", "no-outputs", "vout-toolarge", "total-toolarge", "trusted", "trusted-badmerkle", "preparsed", "short-raw", "header-only"}
 
 func genBlock(g *vlib.Rng, sc *scenario, now int64, cons *consH, force string) *blockSpec {
 	s := &blockSpec{txCount: -1}
 	s.mut = blockMuts[g.Intn(len(blockMuts))]
+	forceSide := strings.HasSuffix(force, "@side")
 	if force != "" {
-		s.mut = force
+		s.mut = strings.TrimSuffix(force, "@side")
 	}
 	s.parent = sc.tip
-	if s.mut == "fork-side" || (s.mut == "parent-prefix-only" && g.Chance(1, 3)) {
+	// audit 2, 3b: the contextual rules are also violated on blocks whose parent is NOT sc.tip (an ancestor 1..3 back: a side
+	// branch, or — in scenarios whose LastBlock stays behind the header tip — simply another ancestor than LastBlock), so a
+	// rule evaluated against the wrong ancestor is judged by the reference on a block that violates it
+	side := false
+	if (force == "" && sideMuts[s.mut] && g.Chance(1, 3)) || forceSide {
+		side = true
+	}
+	if s.mut == "fork-side" || side || (s.mut == "parent-prefix-only" && g.Chance(1, 3)) {
 		for i := 0; i < 1+g.Intn(3) && s.parent.Parent != nil; i++ {
 			s.parent = s.parent.Parent
 		}
+	}
+	if side {
+		defer func() { s.mut += "@side" }()
 	}
 	height := s.parent.Height + 1
 	rc := refChain(s.parent)
@@ -270,6 +301,9 @@ func genBlock(g *vlib.Rng, sc *scenario, now int64, cons *consH, force string) *
 	s.time = mtp + 1 + uint32(g.Intn(1300))
 	if g.Chance(1, 3) && s.parent.Timestamp() > mtp {
 		s.time = s.parent.Timestamp() + uint32(g.Intn(1300))
+	}
+	if side && g.Chance(1, 2) {
+		s.time = mtp + 1 + uint32(g.Intn(6000)) // often later than the median of the blocks after the fork point
 	}
 	switch s.mut {
 	case "time-mtp":
@@ -403,7 +437,8 @@ func genBlock(g *vlib.Rng, sc *scenario, now int64, cons *consH, force string) *
 	}
 	wantCommit := segwitOn && (anyWit || g.Chance(1, 3))
 	switch s.mut {
-	case "commit-wrong", "commit-two-last-right", "commit-two-first-right", "nonce-31", "nonce-33", "nonce-2items", "nonce-absent", "commit-superfluous":
+	case "commit-wrong", "commit-two-last-right", "commit-two-first-right", "nonce-31", "nonce-33", "nonce-2items", "nonce-absent", "commit-superfluous",
+		"commit-37", "commit-37-after":
 		wantCommit = true // also when segwit is not active: then the commitment is just an output
 	}
 	if wantCommit && s.txs[0].isCoinbase() {
@@ -421,6 +456,13 @@ func genBlock(g *vlib.Rng, sc *scenario, now int64, cons *consH, force string) *
 			bad := append([]byte{}, cb.outs[p].pk...)
 			bad[10] ^= 1
 			cb.outs = append(cb.outs, rout{0, bad})
+		case "commit-37":
+			// boundary of `len(Pk_script) >= 38`: the commitment output cut to 37 bytes is NOT a commitment (the coinbase's
+			// witness is then unexpected)
+			cb.outs[p].pk = append([]byte{}, cb.outs[p].pk[:37]...)
+		case "commit-37-after":
+			// a 37-byte commitment-shaped output AFTER the right one: still the right one is the last that matches
+			cb.outs = append(cb.outs, rout{0, append(append([]byte{}, witnessHdr...), g.Bytes(31)...)})
 		case "nonce-31":
 			cb.wit = [][][]byte{{g.Bytes(31)}}
 		case "nonce-33":
@@ -700,6 +742,7 @@ type blockResult struct {
 func runBlock(kind string, sc *scenario, s *blockSpec, cons consH, raw []byte, now int64, rep map[string]interface{}) {
 	r.Eval("block/"+kind, "block:"+vlib.ShortHash(raw)+sc.desc+s.mut)
 	r.Hit("block-mutation/" + s.mut)
+	mutSeen[s.mut]++
 	ch := sc.ch
 	applyCons(ch, cons)
 	var bl *btc.Block
@@ -781,10 +824,16 @@ func runBlock(kind string, sc *scenario, s *blockSpec, cons consH, raw []byte, n
 	rawCopy := append([]byte{}, raw...)
 	preParsedIn := s.preParsed && bl.Txs != nil
 	cntEntry := bl.TxCount // what NewBlock / UpdateContent left (the count field of the whole serialisation)
-	rawCnt := 0
+	rawCnt, rawOff := 0, 0
 	if b2, e2 := btc.NewBlock(raw); e2 == nil && len(raw) >= 80 {
 		rawCnt = b2.TxCount
+		if b2.TxOffset >= 80 {
+			rawOff = b2.TxOffset - 80
+		}
 	}
+	// the rest of the object state BuildTxListExt writes, as it is before the call (audit 2: BlockWeight / TotalInputs /
+	// TxOffset were outside the model's block object)
+	offEntry, wgtEntry, tinEntry := bl.TxOffset, bl.BlockWeight, bl.TotalInputs
 
 	var dos, later bool
 	var er error
@@ -875,50 +924,16 @@ func runBlock(kind string, sc *scenario, s *blockSpec, cons consH, raw []byte, n
 		r.PropFail("checkblock-sideeffect", "Chain.CheckBlock changed the chain state (BlockIndex entries / node fields / tip / Unspent) or the raw block (kind "+s.mut+")", rep)
 		return
 	}
-	// ---- the model with explicit effects (BlockCheck.checkBlockM): the look-ups are made by the model in its own copy
-	// of the chain state; compared: result, the block-object fields CheckBlock assigns, and the chain state afterwards
-	if !(s.shortRaw > 0 || len(raw) < 80) {
-		buildOk, toks := modelTxTokens(raw)
-		assigned := buildAssigned(raw) // BuildTxList returns before bl.Txs = make(...) on a corrupt count
-		cb := o.MustAsk(fmt.Sprintf("cb %d %d %s %s %d %d %d %s %s %d %s %d %d %d %d %d %d %s %s %s %s %s %d %d %s", len(raw), ver, hashHex, prevHex,
-			bits, btime, now, b2s(sc.net.testnet), b2s(sc.net.testnet4), ch.Consensus.MaxPOWBits, ch.Consensus.MaxPOWValue.String(),
-			cons.bip34, cons.bip65, cons.bip66, cons.csv, cons.segwit, cons.taproot, b2s(preParsedIn), b2s(buildOk), b2s(assigned), b2s(s.trusted), vlib.Hex(raw[36:68]),
-			cntEntry, rawCnt, strings.Join(toks, " ")))
-		cf := strings.Fields(cb)
-		ntx := "nil"
-		if bl.Txs != nil {
-			ntx = fmt.Sprint(len(bl.Txs))
-		}
-		implM := fmt.Sprintf("%s %s %s %d %d %d %s %d %d %d", b2s(dos), b2s(later), code, bl.Height, bl.MedianPastTime, bl.VerifyFlags, ntx, len(ch.BlockIndex), sc.t.idx[ch.LastBlock()], bl.TxCount)
-		modelM := cb
-		if len(cf) == 11 {
-			mc := cf[2]
-			if strings.HasPrefix(mc, "tx:") && strings.HasPrefix(code, "tx:") {
-				for _, e := range strings.Split(mc[3:], "|") {
-					if "tx:"+e == code {
-						mc = code // the goroutines race: any one of the failing transactions may be reported
-					}
-				}
-			}
-			modelM = strings.Join([]string{cf[0], cf[1], mc, cf[3], cf[4], cf[5], cf[6], cf[8], cf[9], cf[10]}, " ")
-		}
-		rep["model_with_effects"] = modelM
-		if implM != modelM {
-			r.TieFail("tie-checkblock-effects:"+s.mut, fmt.Sprintf("model checkBlockM / impl differ on CheckBlock's result or effects (kind %s): impl=%q model=%q (dos later code Height MedianPastTime VerifyFlags len(Txs) len(BlockIndex) last TxCount)", s.mut, implM, modelM), rep)
-			return
-		}
-		r.TieOK()
-		if er != nil {
-			r.Hit("refused-unchanged-confirmed")
-		}
-	}
+	// ---- the property's own predicate FIRST (audit 2, 3a): the reference judges the real answer before any model tie, so a
+	// broken guard yields accepted-invalid:<rule> with a replayable witness even where the model (regenerated from the
+	// same source, or simply disagreeing) would otherwise stop the case as a plain tie
 	accepted := er == nil
 	// the reference finds the parent by the WHOLE previous-block field in its own map — never through BlockIndex
 	refParent := sc.refParentOf(raw)
 	if pnode != nil && refParent == nil {
 		r.Hit("prev-hash-shares-only-the-index-key-with-a-known-block")
 	}
-	if !s.noRef && !s.trusted && refParent == nil && len(raw) >= 80 {
+	if !s.noRef && refParent == nil && len(raw) >= 80 {
 		rep["reference_violations"] = []string{"prev-blk-not-found"}
 		if accepted {
 			r.PropFail("accepted-invalid:prev-blk-not-found", fmt.Sprintf("Chain.CheckBlock accepts a block (kind %s) whose previous-block field %x is the hash of no known block (it shares its first 8 bytes, the BlockIndex key, with %v)", s.mut, raw[4:36], pnode != nil), rep)
@@ -926,7 +941,7 @@ func runBlock(kind string, sc *scenario, s *blockSpec, cons consH, raw []byte, n
 		}
 		r.Hit("unknown-parent-refused/" + code)
 	}
-	if !s.noRef && !s.trusted && refParent != nil && len(raw) >= 80 {
+	if !s.noRef && refParent != nil && len(raw) >= 80 {
 		pnode := refParent
 		rc := refChain(pnode)
 		req, _ := refNextWork(rc, btime, sc.net.params(ch.Consensus.MaxPOWValue))
@@ -937,6 +952,19 @@ func runBlock(kind string, sc *scenario, s *blockSpec, cons consH, raw []byte, n
 		viol := refCheckBlock(refHeader{int32(ver), raw[36:68], btime, bits, bl.Hash.Hash[:]}, s.txs, ctx)
 		if s.cutTail > 0 || (s.txCount >= 0 && s.txCount != len(s.txs)) {
 			viol = append(viol, "malformed")
+		}
+		if s.trusted {
+			// a block marked trusted (below the client's checkpoint) skips the coinbase / commitment / transaction rules by
+			// design; what stays in force is judged: header rules, well-formedness, weight, merkle root and mutation
+			var keep []string
+			for _, v := range viol {
+				switch v {
+				case "pow", "bits", "time-old", "time-new", "version", "merkle", "merkle-mutated", "weight", "malformed":
+					keep = append(keep, v)
+				}
+			}
+			viol = keep
+			r.Hit("reference-judged-trusted-block")
 		}
 		rep["reference_violations"] = viol
 		if accepted && len(viol) > 0 {
@@ -957,6 +985,44 @@ func runBlock(kind string, sc *scenario, s *blockSpec, cons consH, raw []byte, n
 		}
 		if accepted {
 			r.Hit("accepted-valid")
+		}
+	}
+	// ---- the model with explicit effects (BlockCheck.checkBlockM): the look-ups are made by the model in its own copy
+	// of the chain state; compared: result, the block-object fields CheckBlock assigns, and the chain state afterwards
+	if !(s.shortRaw > 0 || len(raw) < 80) {
+		buildOk, toks := modelTxTokens(raw)
+		assigned := buildAssigned(raw) // BuildTxList returns before bl.Txs = make(...) on a corrupt count
+		cb := o.MustAsk(fmt.Sprintf("cb %d %d %s %s %d %d %d %s %s %d %s %d %d %d %d %d %d %s %s %s %s %s %d %d %d %d %d %d %s", len(raw), ver, hashHex, prevHex,
+			bits, btime, now, b2s(sc.net.testnet), b2s(sc.net.testnet4), ch.Consensus.MaxPOWBits, ch.Consensus.MaxPOWValue.String(),
+			cons.bip34, cons.bip65, cons.bip66, cons.csv, cons.segwit, cons.taproot, b2s(preParsedIn), b2s(buildOk), b2s(assigned), b2s(s.trusted), vlib.Hex(raw[36:68]),
+			cntEntry, rawCnt, rawOff, offEntry, wgtEntry, tinEntry, strings.Join(toks, " ")))
+		cf := strings.Fields(cb)
+		ntx := "nil"
+		if bl.Txs != nil {
+			ntx = fmt.Sprint(len(bl.Txs))
+		}
+		implM := fmt.Sprintf("%s %s %s %d %d %d %s %d %d %d %d %d %d", b2s(dos), b2s(later), code, bl.Height, bl.MedianPastTime, bl.VerifyFlags, ntx, len(ch.BlockIndex), sc.t.idx[ch.LastBlock()], bl.TxCount,
+			bl.TxOffset, bl.BlockWeight, bl.TotalInputs)
+		modelM := cb
+		if len(cf) == 14 {
+			mc := cf[2]
+			if strings.HasPrefix(mc, "tx:") && strings.HasPrefix(code, "tx:") {
+				for _, e := range strings.Split(mc[3:], "|") {
+					if "tx:"+e == code {
+						mc = code // the goroutines race: any one of the failing transactions may be reported
+					}
+				}
+			}
+			modelM = strings.Join([]string{cf[0], cf[1], mc, cf[3], cf[4], cf[5], cf[6], cf[8], cf[9], cf[10], cf[11], cf[12], cf[13]}, " ")
+		}
+		rep["model_with_effects"] = modelM
+		if implM != modelM {
+			r.TieFail("tie-checkblock-effects:"+s.mut, fmt.Sprintf("model checkBlockM / impl differ on CheckBlock's result or effects (kind %s): impl=%q model=%q (dos later code Height MedianPastTime VerifyFlags len(Txs) len(BlockIndex) last TxCount TxOffset BlockWeight TotalInputs)", s.mut, implM, modelM), rep)
+			return
+		}
+		r.TieOK()
+		if er != nil {
+			r.Hit("refused-unchanged-confirmed")
 		}
 	}
 	if impl != model {
@@ -1001,7 +1067,7 @@ func oneBlockCaseSeed(kind string, caseSeed uint64, sc *scenario) {
 			"cons":         []uint32{cons.bip34, cons.bip65, cons.bip66, cons.csv, cons.segwit, cons.taproot},
 			"parent_chain": refChain(sc.tip)[:min(len(refChain(sc.tip)), 14)], "trusted": s.trusted, "preparsed": s.preParsed, "dup": s.dupIndex, "short": s.shortRaw,
 			"net": sc.net.name, "parent_back": backSteps(sc.tip, s.parent),
-			"sc_seed": fmt.Sprint(sc.seed), "sc_len": sc.length, "sc_spacing": sc.spacing, "case_seed": fmt.Sprint(caseSeed), "kind": kind}
+			"sc_seed": fmt.Sprint(sc.seed), "sc_len": sc.length, "sc_spacing": sc.spacing, "sc_lastback": sc.lastBack, "case_seed": fmt.Sprint(caseSeed), "kind": kind}
 		if time.Now().Unix() != now { // the second changed while building: the +2h boundary would be ambiguous
 			continue
 		}
@@ -1090,6 +1156,27 @@ func corpusBlocks(g *vlib.Rng) {
 			"cons": []uint32{cons.bip34, cons.bip65, cons.bip66, cons.csv, cons.segwit, cons.taproot}, "net": sc.net.name, "dup": s.dupIndex}
 		runBlock("corpus", sc, s, cons, raw, now, rep)
 	}
+	// audit 2, 3b / 3c: a contextual rule violated on a block whose parent is not the last block, on a chain state whose
+	// LastBlock is the header tip and on one where it stays behind; the 37-byte commitment-shaped output
+	for _, lb := range []int{0, 3} {
+		sc2 := newScenarioLB(g.U64(), nets[0], 20, 600, lb)
+		for _, kind := range []string{"lock-time@side", "lock-time@side", "lock-time-1@side", "time-mtp@side", "time-mtp+1@side", "version@side", "bip34-wrong-height@side",
+			"lock-time", "time-mtp", "time-mtp+1", "commit-37", "commit-37", "commit-37-after", "commit-37-after", "trusted", "trusted-badmerkle"} {
+			now := stableNow()
+			var cons consH
+			s := genBlock(g.Fork(), sc2, now, &cons, kind)
+			if strings.HasPrefix(kind, "commit-37") {
+				cons.segwit = 1
+				if refCommitPos(s.txs[0]) < 0 && kind == "commit-37-after" {
+					continue
+				}
+			}
+			raw := s.raw()
+			rep := map[string]interface{}{"op": "block", "mutation": s.mut + "-corpus", "raw": fmt.Sprintf("%x", raw), "scenario": sc2.desc, "now_at_run": now,
+				"cons": []uint32{cons.bip34, cons.bip65, cons.bip66, cons.csv, cons.segwit, cons.taproot}, "net": sc2.net.name, "parent_back": backSteps(sc2.tip, s.parent)}
+			runBlock("corpus", sc2, s, cons, raw, now, rep)
+		}
+	}
 	e2ePrefixOnlyParent(g.U64())
 }
 
@@ -1103,7 +1190,14 @@ func streamBlocks(g *vlib.Rng) {
 		if g.Chance(1, 6) {
 			length = 0
 		}
-		sc := newScenario(g.U64(), net, length, 600)
+		lb := 0
+		if g.Chance(1, 4) {
+			lb = 1 + g.Intn(6) // headers ahead of the connected chain
+		}
+		sc := newScenarioLB(g.U64(), net, length, 600, lb)
+		if sc.lastBack > 0 {
+			r.Hit("scenario/last-block-behind-header-tip")
+		}
 		for k := 0; k < per; k++ {
 			oneBlockCase("short-chain", g, sc)
 		}
@@ -1159,6 +1253,9 @@ func deepForkCase(g *vlib.Rng, sc *scenario, back int) {
 }
 
 // weightCases: blocks of weight exactly 4,000,000 and 4,000,001 (and neighbours), fresh and pre-parsed.
+var weightBuilt, weightAsked int // constructed exact-weight cases (floor asserted by generatorFloor)
+var mutSeen = map[string]int{}
+
 func weightCases(g *vlib.Rng) {
 	sc := newScenario(g.U64(), nets[0], 12, 600)
 	targets := []int{3999999, 4000000, 4000001, 4000004}
@@ -1166,8 +1263,12 @@ func weightCases(g *vlib.Rng) {
 		if i >= r.N(3, 4) {
 			break
 		}
-		for _, pre := range []bool{false, true} {
+		for variant := 0; variant < 3; variant++ {
+			pre, trusted := variant == 1, variant == 2 // audit 2, 3c: trusted x over-weight (the weight limit holds for trusted blocks too)
 			if pre && target != 4000001 {
+				continue
+			}
+			if trusted && target < 4000000 {
 				continue
 			}
 			now := stableNow()
@@ -1179,6 +1280,11 @@ func weightCases(g *vlib.Rng) {
 			if pre {
 				s.mut += "-preparsed"
 			}
+			if trusted {
+				s.mut += "-trusted"
+				s.trusted = true
+			}
+			weightAsked++
 			cb := coinbaseTx(g, height, -1)
 			big1 := regularTx(g, true)
 			big1.wit[0] = [][]byte{{1}}
@@ -1213,6 +1319,7 @@ func weightCases(g *vlib.Rng) {
 				r.Hit("weight-case-not-constructed")
 				continue
 			}
+			weightBuilt++
 			s.merkle, _ = refMerkle(txids(s.txs))
 			s.prevHash = sc.tip.BlockHash.Hash[:]
 			s.bits, _ = refNextWork(rc, s.time, sc.net.params(sc.ch.Consensus.MaxPOWValue))
@@ -1261,7 +1368,7 @@ func replayBlock(m map[string]interface{}) {
 			net = n
 		}
 	}
-	sc := newScenario(scSeed, net, num("sc_len"), num("sc_spacing"))
+	sc := newScenarioLB(scSeed, net, num("sc_len"), num("sc_spacing"), num("sc_lastback"))
 	oneBlockCaseSeed(str("kind"), caseSeed, sc)
 	_ = big.NewInt
 }
